@@ -770,6 +770,10 @@ class Gen:
 		n, _ = r.choice(fs)
 		return E('attr', 'int', [base], val=n, lo=0, hi=BUD)
 
+	def all_methods(self, cls: Cls) -> list[Func]:
+		base = next((c for c in self.prog.classes if c.name == cls.base), None) if cls.base else None
+		return [*(self.all_methods(base) if base else []), *cls.methods]
+
 	def all_fields(self, cls: Cls) -> list[tuple[str, str]]:
 		base = next((c for c in self.prog.classes if c.name == cls.base), None) if cls.base else None
 		return [*(self.all_fields(base) if base else []), *cls.fields]
@@ -1436,6 +1440,13 @@ class Gen:
 				sub.vars[i] = Var(i, 'int', min(begin.lo, 0), max(n.hi - 1, 0))
 				extra = (begin, step)
 				self.count('for:range-begin' + ('-step' if step is not None else ''))
+			# tranp re-evaluates stop and step on every iteration (`i < stop; i += step`), Python evaluates range() once: what they read
+			# is read-only in the body (the re-evaluation itself is the known finding range:args-reevaluated, probe programs only)
+			def names(e: E) -> set[str]:
+				return ({str(e.val)} if e.k == 'var' else set()) | {x for c in e.kids for x in names(c)}
+			for nm in names(n) | (names(extra[1]) if extra and extra[1] is not None else set()):
+				if nm in sub.vars:
+					sub.vars[nm] = self.freeze(sub.vars[nm])
 			body.append(S('for_range', i, n, self.loop_body(sub, depth), extra))
 		elif x < 0.55 and lists and min(v.maxlen for v in lists) <= 40:
 			v = r.choice([v for v in lists if v.maxlen <= 40])
@@ -1452,6 +1463,19 @@ class Gen:
 				sub.vars[iv] = Var(iv, 'int', 0, max(v.maxlen, 1))
 				self.count('for:enumerate')
 				body.append(S('for_enum', (iv, xv), self.var_e(v), self.loop_body(sub, depth)))
+		elif (objs := [v for v in env.vars.values() if v.cls is not None and isinstance(v.cls, Cls) and any(getattr(m, 'view', None) for m in self.all_methods(v.cls))]) and x < 0.85:
+			# a user object with methods named like the dict views: an ordinary loop over the returned list (order matters, any body)
+			v = r.choice(objs)
+			m = r.choice([m for m in self.all_methods(v.cls) if getattr(m, 'view', None)])
+			vn, n = m.view
+			sub = Env(self, env)
+			sub.mult, sub.in_loop = env.mult * n, True
+			kv, vv = self.fresh('k'), self.fresh('w')
+			sub.vars[kv] = Var(kv, 'int', 0, 9)
+			if vn == 'items':
+				sub.vars[vv] = Var(vv, 'int', 0, 9)
+			self.count(f'for:object.{vn}')
+			body.append(S('for_' + vn, (kv, vv) if vn == 'items' else kv, self.var_e(v), self.loop_body(sub, depth)))
 		elif x < 0.7 and dicts and min(v.maxlen for v in dicts) <= 40:
 			v = r.choice([v for v in dicts if v.maxlen <= 40])
 			sub = Env(self, env)
@@ -1708,6 +1732,38 @@ class Gen:
 			mk.decor = 'classmethod'
 			self.count('method:classmethod')
 			cls.methods.append(mk)
+		if r.random() < 0.4:
+			# methods NAMED like the dict views (`keys` / `values` / `items`) on a user class, returning lists: a for loop over them is an
+			# ordinary loop over the returned list, only a dict receiver makes it a dict loop (`for (auto& [k, v] : d)`)
+			def small() -> E:
+				return self.lit_int(0, 9)
+			views = r.sample(['keys', 'values', 'items'], r.randint(1, 3))
+			for vn in views:
+				n = r.randint(1, 3)
+				if vn == 'items':
+					elems = [E('tuple', 'tuple[int,int]', [small(), small()]) for _ in range(n)]
+					m = Func('items', [], 'list[tuple[int, int]]', [S('return', E('list', 'list[tuple[int, int]]', elems))])
+				else:
+					elems = [small() for _ in range(n)]
+					m = Func(vn, [], 'list[int]', [S('return', E('list', 'list[int]', elems))])
+				m.view = (vn, n)  # type: ignore[attr-defined]
+				self.count(f'method:named-{vn}')
+				cls.methods.append(m)
+			if r.random() < 0.6:
+				# `self.values()` inside the class
+				vn = r.choice(views)
+				acc, x1, x2 = self.fresh('t'), self.fresh('x'), self.fresh('y')
+				tgt = E('var', 'int', val=acc)
+				if vn == 'items':
+					loop = S('for_items', (x1, x2), selfv, [S('aug', tgt, E('bin', 'int', [E('var', 'int', val=x1, lo=0, hi=9), E('var', 'int', val=x2, lo=0, hi=9)], op='*', lo=0, hi=81), '+')])
+					hi = 81 * 3
+				else:
+					loop = S('for_' + vn, x1, selfv, [S('aug', tgt, E('var', 'int', val=x1, lo=0, hi=9), '+')])
+					hi = 27
+				tot = Func(self.fresh('get'), [], 'int', [S('assign', tgt, E('lit', 'int', val=0, lo=0, hi=0)), loop, S('return', E('var', 'int', val=acc, lo=0, hi=hi))])
+				tot.rlo, tot.rhi = 0, hi
+				self.count('for:self-view-method')
+				cls.methods.append(tot)
 		if r.random() < 0.35:
 			# a method returning a new instance of its own class: makes `C(..).dup(..)` call chains on constructor results possible
 			# (dbbf835: only a whole-value constructor call may be emitted as the initializer `C x{..}`)
@@ -1800,6 +1856,8 @@ PROBE_WHAT = {
 	'cxx:unmapped-method': 'list/str/dict methods without a C++ mapping are passed through under their Python or provisional (data/i18n.yml FIXME) name: '
 		'sort/reverse/index/remove, count/split/upper/lower/replace/strip/join, update — g++ rejects',
 	'ub:negative-index': '`xs[-1]` is emitted verbatim: out-of-bounds access in C++ (aborts under -D_GLIBCXX_ASSERTIONS)',
+	'range:args-reevaluated': '`for i in range(n): ... n += 1` / `for i in range(len(xs)): xs.append(..)`: Python evaluates the range() arguments once, the emitted '
+		'`for (auto i = 0; i < n; i += 1)` re-evaluates stop (and step) on every iteration: the trip count differs when the body changes what they read',
 	'reject:block-scoped-name': 'a name first assigned inside a nested block (both if/else branches, a while/for body, the for variable) and read after the block '
 		'is valid Python (function-level scope) but is rejected: Errors.UnresolvedSymbol at the read, and Errors.Fatal <- RecursionError when the read is in `v = v + 1` '
 		'(the scope condition of C01.stmt_agree; the emitter never hoists a declaration)',
@@ -1858,6 +1916,13 @@ def probe_program(rng: random.Random, key: str | None = None) -> tuple[str, dict
 			ret = 'str'
 			args = {'upper': '', 'lower': '', 'replace': f"'{lit[:1]}', 'zz'", 'strip': f"'{lit[:1]}'"}[m]
 			body = f"\treturn s.{m}({args}) + '{lit}'\n"
+	elif key == 'range:args-reevaluated':
+		lim = rng.randint(6, 9)
+		body = rng.choice([
+			f'\tn = {rng.randint(1, 3)}\n\tt = 0\n\tfor i in range(n):\n\t\tif n < {lim}:\n\t\t\tn += 1\n\t\tt += i + {e1}\n\treturn t * 100 + n\n',
+			f'\txs = [{e1}, {e2}]\n\tt = 0\n\tfor i in range(len(xs)):\n\t\tif len(xs) < {lim}:\n\t\t\txs.append(i)\n\t\tt += 1\n\treturn t * 100 + len(xs)\n',
+			f'\tn = {rng.randint(2, 4)}\n\tt = 0\n\tfor i in range(0, n + 1, 1):\n\t\tn -= 1\n\t\tt += 1\n\treturn t * 100 + n + {e1}\n',
+		])
 	elif key == 'reject:block-scoped-name':
 		v = rng.choice(['v', 'w', 'acc'])
 		use = rng.choice([f'\treturn {v} + {e2}\n', f'\t{v} = {v} + {e2}\n\treturn {v}\n'])
